@@ -42,10 +42,14 @@ def run_property(prop: str, tier: str) -> int:
     checker.run(rules)
     obs = [ob for ob in checker.obs]
     extra: dict[str, object] = {"rules_run": [r.rid for r in rules]}
-    if tier == "thorough":
+    if tier == "thorough" and not os.environ.get("NGOSA_DUMP"):
         from . import selftest
 
         extra["selftest"] = selftest.run(prop, [r.rid for r in rules])
+        extra["stability"] = stability(prop, obs)
+        for name, res in extra["stability"].items():  # type: ignore[union-attr]
+            if res.get("verdict_changes"):
+                checker.errors.append(f"stability: the {name} run decides obligations differently: {res['verdict_changes'][:3]}")
     for mod_name in RULE_MODULES:
         mod = importlib.import_module(f"ngosa.rules.{mod_name}")
         floors = getattr(mod, "FLOORS", {})
@@ -62,6 +66,45 @@ def run_property(prop: str, tier: str) -> int:
     if checker.errors and rc == 0:
         return 2
     return rc
+
+
+def stability(prop: str, obs: list) -> dict[str, dict[str, object]]:  # type: ignore[type-arg]
+    """thorough tier: decide the same obligations again (a) with much larger engine bounds (more loop rounds, more path
+    classes before widening) and (b) on the raw tree without alpha-normalisation / condition normal form; an obligation
+    that is decided differently shows an imprecision of the engine or of a normalisation and is reported as analysis error"""
+    import subprocess
+    import tempfile
+
+    base = {(o.rule, o.func, o.sig): o.ok for o in obs}
+    out: dict[str, dict[str, object]] = {}
+    runs = {
+        "precise-bounds": {"NGOSA_LOOP_ROUNDS": "6", "NGOSA_MAX_STATES": "160", "NGOSA_GROUP_STATES": "64"},
+        "raw-tree": {"NGOSA_NO_ALPHA": "1", "NGOSA_NO_NFORM": "1"},
+    }
+    for name, env_extra in runs.items():
+        fd, path = tempfile.mkstemp(prefix="ngosa-stab-", suffix=".json")
+        os.close(fd)
+        env = dict(os.environ)
+        env.update(env_extra)
+        env["NGOSA_DUMP"] = path
+        env["VERIF_TIER"] = "quick"
+        started = time.time()
+        res = subprocess.run([sys.executable, "-m", "ngosa.cli", prop, "--tier", "quick"], cwd=os.path.dirname(os.path.dirname(os.path.abspath(__file__))), env=env, capture_output=True, text=True, check=False)
+        try:
+            with open(path, encoding="utf-8") as fh:
+                table = {(r, f, s): ok for r, f, s, ok in json.load(fh)}
+        except (OSError, ValueError):
+            table = None
+        finally:
+            if os.path.exists(path):
+                os.unlink(path)
+        if table is None:
+            out[name] = {"ran": False, "exit": res.returncode, "output": res.stdout[-300:]}
+            continue
+        changes = sorted(f"{k[0]} {k[1]} [{k[2]}]: {base[k]} -> {table[k]}" for k in base if k in table and table[k] != base[k])
+        out[name] = {"ran": True, "settings": env_extra, "obligations": len(table), "same_verdict": sum(1 for k in base if table.get(k) == base[k]), "only_here": len(set(table) - set(base)), "missing_here": len(set(base) - set(table)),
+                     "verdict_changes": changes, "wall_s": round(time.time() - started, 2)}
+    return out
 
 
 def main(argv: list[str]) -> int:
